@@ -2,7 +2,8 @@
    nat stay the extracted datatypes, no Extract Constant. *)
 From Coq Require Import ZArith List.
 From Coq Require Import ExtrOcamlBasic.
-From VV Require Import Csv.CsvDefs.
+From VV Require Import Csv.CsvDefs Csv.HistoryDefs.
 Extraction "csv_model.ml" read_csv read_xrff setup_terminals run_variable class_name
   parse_line records sniffer guess_delimiter sniff_has_header render_line render_table
-  fixed_v pinned_v no_filter trim blank bytes_eqb is_valid.
+  fixed_v pinned_v no_filter trim blank bytes_eqb is_valid
+  read_csv_on read_xrff_on run_history empty_df.
